@@ -1039,6 +1039,7 @@ class mulgrid(object):
                         c.neighbour.add(col2)
                     del col.node[i[3]]
                     col.centre = col.centroid
+                    col.get_area()
                     self.add_column(col2)
                     self.add_connection(connection([col, col2]))
                     self.setup_block_name_index()
